@@ -15,7 +15,7 @@ use crate::{
     },
 };
 
-use super::CandidateValue;
+use super::{CandidateValue, candidates::NullableValue};
 
 /// Indicates that a property's value is dependent on another value in the query.
 ///
@@ -390,6 +390,19 @@ field {fold_field:?} produced an invalid value when resolving @tag: {value:?}",
     }
 }
 
+/// Ordering comparisons against `null` are never satisfied, so a `null` tagged value
+/// means no value of the filtered property can satisfy the filter.
+fn range_unless_null(
+    value: FieldValue,
+    make_range: impl FnOnce(FieldValue) -> Range<FieldValue>,
+) -> CandidateValue<FieldValue> {
+    if value.is_null() {
+        CandidateValue::Impossible
+    } else {
+        CandidateValue::Range(make_range(value))
+    }
+}
+
 fn compute_candidate_from_operation<'vertex, Vertex: Debug + Clone + 'vertex>(
     operation: &Operation<(), ()>,
     initial_candidate: CandidateValue<FieldValue>,
@@ -410,48 +423,61 @@ fn compute_candidate_from_operation<'vertex, Vertex: Debug + Clone + 'vertex>(
         }
         Operation::LessThan(_, _) => {
             compute_candidate_from_tagged_value!(iterator, initial_candidate, candidate, value, {
-                candidate.intersect(CandidateValue::Range(Range::with_end(
-                    Bound::Excluded(value),
-                    true, // nullability is handled in the initial_candidate
-                )));
+                candidate.intersect(range_unless_null(value, |value| {
+                    Range::with_end(
+                        Bound::Excluded(value),
+                        true, // nullability is handled in the initial_candidate
+                    )
+                }));
             })
         }
         Operation::LessThanOrEqual(_, _) => {
             compute_candidate_from_tagged_value!(iterator, initial_candidate, candidate, value, {
-                candidate.intersect(CandidateValue::Range(Range::with_end(
-                    Bound::Included(value),
-                    true, // nullability is handled in the initial_candidate
-                )));
+                candidate.intersect(range_unless_null(value, |value| {
+                    Range::with_end(
+                        Bound::Included(value),
+                        true, // nullability is handled in the initial_candidate
+                    )
+                }));
             })
         }
         Operation::GreaterThan(_, _) => {
             compute_candidate_from_tagged_value!(iterator, initial_candidate, candidate, value, {
-                candidate.intersect(CandidateValue::Range(Range::with_start(
-                    Bound::Excluded(value),
-                    true, // nullability is handled in the initial_candidate
-                )));
+                candidate.intersect(range_unless_null(value, |value| {
+                    Range::with_start(
+                        Bound::Excluded(value),
+                        true, // nullability is handled in the initial_candidate
+                    )
+                }));
             })
         }
         Operation::GreaterThanOrEqual(_, _) => {
             compute_candidate_from_tagged_value!(iterator, initial_candidate, candidate, value, {
-                candidate.intersect(CandidateValue::Range(Range::with_end(
-                    Bound::Included(value),
-                    true, // nullability is handled in the initial_candidate
-                )));
+                candidate.intersect(range_unless_null(value, |value| {
+                    Range::with_end(
+                        Bound::Included(value),
+                        true, // nullability is handled in the initial_candidate
+                    )
+                }));
             })
         }
         Operation::OneOf(_, _) => {
             compute_candidate_from_tagged_value!(iterator, initial_candidate, candidate, value, {
-                let values = value
-                    .as_slice()
-                    .unwrap_or_else(|| {
-                        panic!(
-                            "\
+                if value.is_null() {
+                    // The tagged list is `null`, so no value can be "one of" its elements.
+                    candidate.intersect(CandidateValue::Impossible);
+                } else {
+                    let values = value
+                        .as_slice()
+                        .unwrap_or_else(|| {
+                            panic!(
+                                "\
 field {field_name} of type {field_type} produced an invalid value when resolving @tag: {value:?}",
-                        )
-                    })
-                    .to_vec();
-                candidate.intersect(CandidateValue::Multiple(values));
+                            )
+                        })
+                        .to_vec();
+                    candidate.intersect(CandidateValue::Multiple(values));
+                }
             })
         }
         _ => unreachable!("unsupported 'operation': {:?}", operation,),
